@@ -33,6 +33,7 @@ pub enum Error {
     DivideByZero,
     NumberOverflow,
     InvalidShiftCount,
+    NestingTooDeep,
 }
 
 #[cfg(not(tarpaulin_include))]
@@ -73,6 +74,7 @@ impl fmt::Display for Error {
             DivideByZero => write!(f, "divide by zero"),
             NumberOverflow => write!(f, "number overflow"),
             InvalidShiftCount => write!(f, "invalid shift count"),
+            NestingTooDeep => write!(f, "expression nested too deeply"),
         }
     }
 }
